@@ -7,6 +7,7 @@ CONSTANTS
   NamedStringValidated = TRUE
   RequiredFileIs422 = FALSE
   ItemFormatValidated = TRUE
+  FormDataFromBodyOnly = TRUE
   Thorough = FALSE
 INVARIANTS Property
 CHECK_DEADLOCK FALSE
